@@ -1,6 +1,10 @@
 (* RunC08.v — Tie B entry points of C08: the history / repair runs of Run.v with the status
    rows of a failed layer opening folded into the classes the harness can observe (the
    implementation reports one error for "the archive does not open", whichever layer failed). *)
+From MLA Require Import Limit.
+From MLAGen Require Src.
+(* executable entry points: the production value of BINCODE_MAX_DESERIALIZE (the same in both flavours), file-local *)
+#[local] Instance RUN_LIMIT : Limit := MLAGen.Src.BINCODE_MAX_DESERIALIZE_prod.
 From MLA Require Import Base Stream Inst Run.
 Open Scope N_scope.
 
